@@ -20,7 +20,7 @@ class AppStatus(int, enum.Enum):
     TEAPOT = 418
 
 STATUSES = [200, 200, 201, 204, 299, 301, 404, 418, 500, 599, 600]
-HDR_NAMES = ["X-A", "x-b", "Cache-Control", "X-Long-Header-Name", "Server", "X-é".encode("latin-1").decode("latin-1")]
+HDR_NAMES = ["X-A", "x-b", "Cache-Control", "X-Long-Header-Name", "Server", "cache-control", "content-type", "X-é".encode("latin-1").decode("latin-1")]
 HDR_VALUES = ["1", "a b", "é", "x; y=z", "", "in\tner", "v" * 40]
 TEXTS = ["", "hello", "héllo wörld", "中文", "line1\nline2", "\U0001f600", "a" * 100]
 COOKIE_VALUES = ["v", "a b", "é", 'q"q', "x;y", "", "a,b=c", "x\r\nSet-Cookie: admin=1", "a\x0bb\x0c", "t\tab", "nul\x00", "\x7f\x80\xff", "back\\slash", "line\n"]
@@ -35,7 +35,7 @@ DOWNLOAD_NAMES = [None, None, "a.txt", "a b.txt", "é.txt", "中文.txt", 'q"q.b
 def gen_headers(t, maxn=3):
     hs = {}
     for _ in range(t.draw(maxn + 1)):
-        hs[t.choice(HDR_NAMES[:5])] = t.choice(HDR_VALUES)
+        hs[t.choice(HDR_NAMES[:7])] = t.choice(HDR_VALUES)
     return hs
 
 
